@@ -96,6 +96,49 @@ def cli_sample(ctx, pool):
         os.remove(path)
 
 
+def classify_completed_stop(c, pieces, err):
+    """D25: a message whose section 3/4 length was increased by k is k bytes longer than its declared total
+    length; the decoder never compares the two, so when the k bytes FOLLOWING the message in the stream happen to
+    complete the stop signature (separator starting with '7' characters) it is accepted.  The cause is named only
+    when the whole outcome is exactly what follows from accepting precisely those messages."""
+    from pybufrkit.decoder import Decoder
+    from pybufrkit.errors import PyBufrKitError
+    stream, starts, dmg = c['stream'], c['starts'], c['damaged']
+    kinds = iter(c['damage_kinds'])
+    adjusted, completed, first_unaccepted = [], 0, None
+    for off, bad in zip(starts, dmg):
+        declared = int.from_bytes(stream[off + 4: off + 7], 'big')
+        if not bad:
+            adjusted.append(stream[off: off + declared])
+            continue
+        kind = next(kinds)
+        got = None
+        if kind in ('sec3-len-plus', 'sec4-len-plus'):
+            try:
+                got = Decoder().process(stream[off:], start_signature=None).serialized_bytes
+            except PyBufrKitError:
+                got = None
+        if got is not None and declared < len(got) <= declared + 7 \
+                and set(stream[off + declared: off + len(got)]) <= {0x37} and got == stream[off: off + len(got)]:
+            adjusted.append(got)
+            completed += 1
+        else:
+            if first_unaccepted is None:
+                first_unaccepted = len(adjusted)
+            adjusted.append(None)
+    if not completed:
+        return {}
+    if c['continue_on_error']:
+        want, want_lib = [a for a in adjusted if a is not None], False
+    elif first_unaccepted is None:
+        want, want_lib = adjusted, False
+    else:
+        want, want_lib = adjusted[:first_unaccepted], True
+    if pieces == want and ((err in (1, 2, 3, 4, 5, 6)) if want_lib else err is None):
+        return {'cause': 'section-length-plus-completed-by-following-sevens'}
+    return {}
+
+
 def run(ctx):
     ctx.rule = ('fault enumeration: (1) every truncation point (every byte; sampled above 400 bytes) of generated messages '
                 '(templates of C01, compressed or not): the implementation must raise a PyBufrKitError, never succeed and never '
@@ -116,7 +159,7 @@ def run(ctx):
     with S.quiet():
         pool, _files = S.build_pool(ctx)
         dmg = S.make_damaged_cases(ctx, pool, ctx.n(40, 900))
-        S.run_stream_cases(ctx, dmg, kind='C12-stream', enforce_expect=True)
+        S.run_stream_cases(ctx, dmg, kind='C12-stream', enforce_expect=True, classify=classify_completed_stop)
     cli_sample(ctx, pool)
     ctx.partial = ['truncation inside sections 0-3/5 is checked on the implementation (framing model: C04)']
     ctx.assumptions = ['Stream.v is instantiated with per-offset observations of the real decoder (C11)',
